@@ -108,6 +108,8 @@ package curves
 //@   ensures[C06.range C07]   err == nil ==> 0 <= value && value <= 255
 //@   ensures[C06.pid C07]     err == nil && !isnan(lastPidOut) ==> value == int(util.clamp01(lastPidOut) * 255.0)
 //@   ensures[C06.current C07] err == nil ==> c.Value == value
+//@   ensures[C06.pid.nan C07] pidSteps != old(pidSteps) && isnan(lastPidOut) ==> err != nil && value == old(c.Value) && c.Value == old(c.Value)
+//@   ensures[C06.pid.ok C07]  pidSteps != old(pidSteps) && !isnan(lastPidOut) ==> err == nil
 //@   modifies c.Value, c.pidLoop.integral, c.pidLoop.error, c.pidLoop.lastTime, lastValue, lastPidOut, pidSteps, procWorld, started, lastReadFailed
 
 // ---- trivial getters (generated by `govc gengetters`, verified like every other contract) ------------------
